@@ -1196,6 +1196,54 @@ func exprMentionsCall(e Expr, name string) bool {
 	return found
 }
 
+// exprMentionsIdent: does e mention one of the identifiers (outside quantifier witnesses)?
+func exprMentionsIdent(e Expr, names map[string]string) bool {
+	found := false
+	var walk func(e Expr)
+	walk = func(e Expr) {
+		switch x := e.(type) {
+		case *EIdent:
+			if _, ok := names[x.Name]; ok {
+				found = true
+			}
+		case *ECall:
+			for _, a := range x.Args {
+				walk(a)
+			}
+		case *EUn:
+			walk(x.X)
+		case *EBin:
+			walk(x.L)
+			walk(x.R)
+		case *EIndex:
+			walk(x.X)
+			walk(x.I)
+		case *ESlice:
+			walk(x.X)
+			if x.Lo != nil {
+				walk(x.Lo)
+			}
+			if x.Hi != nil {
+				walk(x.Hi)
+			}
+		case *EField:
+			walk(x.X)
+		case *EQuant:
+			walk(x.Body)
+		case *ECond:
+			walk(x.C)
+			walk(x.A)
+			walk(x.B)
+		case *ETypeIs:
+			walk(x.X)
+		case *EAs:
+			walk(x.X)
+		}
+	}
+	walk(e)
+	return found
+}
+
 // ---------- types ----------
 
 func (p *parser) parseType() (*TypeExpr, error) {
